@@ -246,6 +246,13 @@ class Interp(object):
     if t == "Floor": return [ew(b.floor, *ins)]
     if t == "Ceil": return [ew(b.ceil, *ins)]
     if t == "Sqrt": return [ew(b.sqrt, *ins)]
+    if t in ("TruncateMod", "FloorMod", "Mod"):
+      # exact when the divisor is a constant power of two: x - trunc|floor(x / y) * y involves no rounding
+      y = ins[1]
+      if is_sym(y) or not np.all(np.asarray(y) > 0) or not np.all(np.log2(np.asarray(y, dtype=np.float64)) % 1 == 0):
+        raise Unsupported(t + " with a divisor that is not a constant positive power of two")
+      rd = b.trunc if t == "TruncateMod" else b.floor
+      return [ew(lambda x, yy: b.sub(x, b.mul(rd(b.div(x, yy)), yy)), *ins)]
     if t == "Square": return [ew(lambda a: b.mul(a, a), *ins)]
     if t == "Maximum": return [ew(b.fmax, *ins)]
     if t == "Minimum": return [ew(b.fmin, *ins)]
